@@ -446,7 +446,7 @@ class Simulation:
         self._summary = self._build_summary()
         return self._summary
 
-    def _execute_until(self, end_time_ns: int) -> None:
+    def _execute_until(self, end_time_ns: int, *, strict: bool = False) -> None:
         """Run the pop-invoke-push loop until time exceeds end_time_ns.
 
         This is the extracted inner loop shared by ``_run_loop_fast`` (normal
@@ -469,7 +469,12 @@ class Simulation:
         events_cancelled = self._events_cancelled
         router = self._event_router
 
+        heap_peek = heap.peek
         while heap_has_events() and current_time.nanoseconds <= end_time_ns:
+            # Windowed execution must not run past the barrier: a partition that
+            # overshoots would discard later cross-partition arrivals as time travel.
+            if strict and heap_peek().time.nanoseconds > end_time_ns:
+                break
             event = heap_pop()
 
             if event._cancelled:
@@ -538,7 +543,7 @@ class Simulation:
 
         with _active_sim_context(self._event_heap, self._clock):
             with _active_debugger_context(None):
-                self._execute_until(window_end.nanoseconds)
+                self._execute_until(window_end.nanoseconds, strict=True)
 
     def _build_summary(self) -> SimulationSummary:
         """Build a SimulationSummary from current state."""
